@@ -536,4 +536,95 @@ theorem acceptable_probes (ua : UA) (e : Option Err) :
       | _ => cases a1 <;> cases a2 <;> rfl
     simp only [acceptable, hasCls, hf, any_or_fun, any_and_const, Option.isNone, Bool.false_or]
 
+namespace Conc
+
+/-- per-call consistency + no connection holds two open transactions -/
+def Inv (s : St) : Prop :=
+  (∀ t, match s.pc t with
+        | .idle => s.conn t = none ∧ s.begins t = 0 ∧ s.ends t = 0
+        | .running _ => s.conn t ≠ none ∧ s.begins t = 1 ∧ s.ends t = 0
+        | .done => s.conn t = none ∧ s.begins t = 1 ∧ s.ends t = 1) ∧
+  (∀ t, s.stray t = 0) ∧
+  (s.conn true ≠ none → s.conn true ≠ s.conn false)
+
+theorem inv_init : Inv init := by
+  refine ⟨?_, ?_, ?_⟩ <;> simp [init]
+
+theorem inv_step (n : Bool → Nat) (s s' : St) (t : Bool) (c : Nat) (hi : Inv s) (h : step n s t c = some s') :
+    Inv s' := by
+  obtain ⟨h1, h2, h3⟩ := hi
+  have ht := h1 t
+  have ho := h1 (!t)
+  unfold step at h
+  split at h
+  · -- Begin
+    rename_i hpc
+    rw [hpc] at ht
+    split at h
+    · simp at h
+    · rename_i hne
+      simp only [Option.some.injEq] at h
+      subst h
+      refine ⟨?_, ?_, ?_⟩
+      · intro x
+        by_cases hx : x = t
+        · subst hx; simp [upd, ht.2.1, ht.2.2]
+        · have : h1 x = h1 x := rfl
+          have hx' := h1 x
+          simp [upd, hx]; exact hx'
+      · intro x; simp [h2 x]
+      · cases t <;> simp_all [upd]
+        all_goals (intro hc; exact hne hc.symm)
+  · -- a statement
+    rename_i k hpc
+    rw [hpc] at ht
+    simp only [Option.some.injEq] at h
+    subst h
+    have hown : ¬ (s.conn t = none ∨ s.conn t = s.conn (!t)) := by
+      intro hcon
+      rcases hcon with hcon | hcon
+      · exact ht.1 hcon
+      · cases t
+        · simp at hcon
+          by_cases hT : s.conn true = none
+          · rw [hT] at hcon; exact ht.1 hcon
+          · exact h3 hT hcon.symm
+        · simp at hcon; exact h3 ht.1 hcon
+    refine ⟨?_, ?_, h3⟩
+    · intro x
+      by_cases hx : x = t
+      · subst hx; simp [upd, ht]
+      · have hx' := h1 x
+        simp [upd, hx]; exact hx'
+    · intro x
+      by_cases hx : x = t
+      · subst hx; simp [upd, h2 x, hown]
+      · simp [upd, hx, h2 x]
+  · -- the end
+    rename_i hpc
+    rw [hpc] at ht
+    simp only [Option.some.injEq] at h
+    subst h
+    refine ⟨?_, ?_, ?_⟩
+    · intro x
+      by_cases hx : x = t
+      · subst hx; simp [upd, ht.2.1, ht.2.2]
+      · have hx' := h1 x
+        simp [upd, hx]; exact hx'
+    · intro x; simp [h2 x]
+    · cases t <;> simp_all [upd]
+  · simp at h
+
+theorem inv_run (n : Bool → Nat) (sched : List (Bool × Nat)) (s : St) (hi : Inv s) : Inv (run n s sched) := by
+  induction sched generalizing s with
+  | nil => exact hi
+  | cons x rest ih =>
+    obtain ⟨t, c⟩ := x
+    unfold run
+    split
+    · rename_i s' h; exact ih s' (inv_step n s s' t c hi h)
+    · exact ih s hi
+
+end Conc
+
 end GoZero.C14
